@@ -399,6 +399,17 @@ pub fn finish(ctx: &Ctx, mut rep: Report, replay: &dyn Fn(&Value) -> Vec<Violati
     if !rep.coverage.contains_key("exhaustive") {
         rep.set("exhaustive", false);
     }
+    // A family that did not run because the time budget was used up (a loaded machine) is not a vacuous check:
+    // the run is reported as incomplete (exhaustive = false), not as broken machinery.
+    let incomplete = rep.coverage.get("exhaustive").and_then(|v| v.as_bool()) != Some(true) || ctx.out_of_time();
+    if incomplete {
+        let (skipped, kept): (Vec<String>, Vec<String>) = rep.machinery_errors.drain(..).partition(|e| e.starts_with("vacuous"));
+        rep.machinery_errors = kept;
+        if !skipped.is_empty() {
+            rep.set("exhaustive", false);
+            rep.set("vacuity_checks_skipped_because_incomplete", Value::Array(skipped.into_iter().map(Value::String).collect()));
+        }
+    }
     let ev = json!({
         "property_id": ctx.id,
         "tier": ctx.tier.name(),
